@@ -193,9 +193,44 @@ def judge_obs(sheet, settings, ob):
             d = _colour_decl(by_sel_out[key_of[i]])
         return O.resolve(css_tokens.serialize_value(d[2]), defs_out) if d is not None else None
 
+    def effective_bg(i):
+        """The rule's background as the written file has it (its own background-color resolved against the written custom
+        properties), else the default background.  None when there is no output file or the value cannot be resolved."""
+        if ob["out_text"] is None:
+            return None
+        ds = rule_decls(by_sel_out, i)
+        if ds is None:
+            return None
+        d = O.last_decl(ds, "background-color")
+        if d is None:
+            return default_bg
+        return O.resolve(css_tokens.serialize_value(d[2]), defs_out)
+
+    def bg_property_adjusted(i, it):
+        """This rule's background refers to a custom property that the tool rewrote for another, adjusted rule's text."""
+        bd = it.last("background-color")
+        bn = O.var_name(bd[1]) if bd else None
+        if not bn:
+            return False
+        mine = {bn} | set(_chain(sheet, bn))
+        for j, (_s, it2, _w) in enumerate(sheet.rules):
+            c2 = it2.last("color")
+            n2 = O.var_name(c2[1]) if c2 else None
+            if j != i and j in card_of and n2 and (({n2} | set(_chain(sheet, n2))) & mine):
+                return True
+        return False
+
     accessible_n = 0
     for i, sel, it in coloured:
         t_in, b_in = resolved[i]
+        # the statement speaks about the written file: when the tool rewrote the custom property this rule uses as its
+        # background (for another rule's text), the rule's background is the rewritten one
+        b_out = effective_bg(i)
+        if b_out is not None and O.colour_key(b_out) is not None and O.colour_key(b_out) != O.colour_key(b_in) and bg_property_adjusted(i, it):
+            shared_bg = True
+            b_in = b_out
+        else:
+            shared_bg = False
         bg_rgb = O.opaque_rgb(b_in, (255, 255, 255)) if b_in else None
         if i in card_of:
             card = card_of[i]
@@ -235,6 +270,17 @@ def judge_obs(sheet, settings, ob):
                 # custom-property definitions may legitimately change (another, adjusted rule references them)
                 if a is None or b is None or _decl_tree(a, True) != _decl_tree(b, True):
                     v("attention_rule_changed/" + it.kind, "%s needs attention but its declarations changed in the written file" % sel)
+                else:
+                    # ... and "left unchanged" includes what the rule's own colour resolves to: a custom property rewritten for
+                    # another rule must not move a rule that was only listed for attention
+                    e_out = effective(i)
+                    if t_in is not None and e_out is not None and O.colour_key(t_in) is not None and O.colour_key(e_out) != O.colour_key(t_in):
+                        tn = O.var_name(it.last("color")[1])
+                        shared = bool(tn) and any(j != i and j in card_of and O.var_name((it2.last("color") or ("", ""))[1]) and
+                                                  (({O.var_name(it2.last("color")[1])} | set(_chain(sheet, O.var_name(it2.last("color")[1])))) & ({tn} | set(_chain(sheet, tn))))
+                                                  for j, (_s, it2, _w) in enumerate(sheet.rules))
+                        v("attention_rule_changed/" + ("shared_property_readjusted" if shared else it.kind),
+                          "%s needs attention, yet its text colour is %s in the written file (was %s): the custom property it uses was rewritten" % (sel, e_out, t_in))
         else:
             accessible_n += 1
             # (3) counted as already readable: really meets the target
@@ -252,6 +298,8 @@ def judge_obs(sheet, settings, ob):
                 m = wcag.meets(wcag.ratio(t_rgb, bg_rgb), target)
                 if m is False and total == len(coloured):
                     c2 = _cause(sheet, i, it, card_of, ob, t_eff)
+                    if shared_bg:
+                        c2 = "shared_property_readjusted"   # counted against the background the property had before it was rewritten
                     v("accessible_below_target/" + (c2 if ("shared_property_readjusted" == c2 or c2.startswith("file_dropped/invalid")) else it.kind), "%s (%s on %s in the written file) counted as already readable, ratio %.3f < %.1f"
                       % (sel, t_eff, b_in, wcag.ratio(t_rgb, bg_rgb), target))
     if total == len(coloured) and accessible_n != counts["accessible"]:
@@ -320,7 +368,7 @@ def sheets(ctx):
             specs.append(([(k, w)], O.SETTINGS))
     # ordered pairs, unwrapped, all settings; second item wrapped, default settings only
     base = [(1, False, None)]
-    for a, b in itertools.product(K, repeat=2):
+    for a, b in (G.quick_pairs(K) if ctx.quick else itertools.product(K, repeat=2)):
         if a in fixed and b in fixed and a == b:
             continue
         specs.append(([(a, "none"), (b, "none")], O.SETTINGS if not ctx.quick else [(0, False, None), (1, True, None), (2, False, "#1e1e1e"), (1, False, None)]))
